@@ -71,6 +71,7 @@ type genMerge struct {
 }
 
 type Gen struct {
+	cellGhosts map[string]types.Type // scalar expression ghosts kept in the symbolic state (heap "ghost:<name>")
 	localAllocs []localAlloc // non-escaping local variables (exempt from the havoc of unknown callees)
 	keySorts map[string]string // datatype declarations of struct map-key sorts (see structKeySort)
 	uncontracted []string // callees without contract met while executing (over-approximated)
